@@ -572,7 +572,7 @@ impl Scenario for C20 {
         "exploration"
     }
     fn rule(&self) -> String {
-        "Three families; the third is the library's own caller — encoder-as-caller: bundled / generated maps (extra sliders with repeats, per-node samples, declared lengths that differ from the path length) are decoded and encoded; every control-point time the encoder writes must be a control-point time of the map or the closed-form time of a head / repeat / tail / object end. Histories of iterators sharing one tick buffer: ops {pollute the buffer with n foreign events, construct an iterator and abandon it after j events, construct and run to completion}. (1) a grid span counts 1..6 x 11 tick-distance/length ratios (incl. 0, tiny, > 1, inf) x 6 velocities x 6 lengths (incl. zero and beyond MAX_LEN) x 2 start times, each run on a polluted buffer — enumerated; (2) seeded histories of 1..8 ops with real-valued parameters in playable ranges, occasionally hundreds / 9001 spans. Every completed stream: eager reference from the statement (structure exact, numbers within 1e-9 relative, tick-count boundary tolerance-aware), chronological ticks, identical tick placement on every span, bit-identical to the stream from a fresh buffer, zero tick distance => no ticks but every repeat; the same stream through nth / skip / step_by / count / last, size_hint bounds honoured, nothing after exhaustion. Also: parameters scaled by powers of two down to 2^-220, no-tick-fits sliders with tick distances down to 5e-324, node-sample / repeat-count edits before encode. Round 8: bulk consumers (fold, for_each, collect, count, try_for_each, peekable) after k calls of next(). Round 10: encoder-node-volumes family (API-built maps, distinct volume per node, active sample volume after encode+decode at each node time; duration API vs closed form). Round 11: second encode after a length edit; zero-length sliders; a node's volume still in force right before the next node. distinct_nontrivial = distinct plan hashes containing a run preceded by pollution or an abandoned iterator.".into()
+        "Three families; the third is the library's own caller — encoder-as-caller: bundled / generated maps (extra sliders with repeats, per-node samples, declared lengths that differ from the path length) are decoded and encoded; every control-point time the encoder writes must be a control-point time of the map or the closed-form time of a head / repeat / tail / object end. Histories of iterators sharing one tick buffer: ops {pollute the buffer with n foreign events, construct an iterator and abandon it after j events, construct and run to completion}. (1) a grid span counts 1..6 x 11 tick-distance/length ratios (incl. 0, tiny, > 1, inf) x 6 velocities x 6 lengths (incl. zero and beyond MAX_LEN) x 2 start times, each run on a polluted buffer — enumerated; (2) seeded histories of 1..8 ops with real-valued parameters in playable ranges, occasionally hundreds / 9001 spans. Every completed stream: eager reference from the statement (structure exact, numbers within 1e-9 relative, tick-count boundary tolerance-aware), chronological ticks, identical tick placement on every span, bit-identical to the stream from a fresh buffer, zero tick distance => no ticks but every repeat; the same stream through nth / skip / step_by / count / last, size_hint bounds honoured, nothing after exhaustion. Also: parameters scaled by powers of two down to 2^-220, no-tick-fits sliders with tick distances down to 5e-324, node-sample / repeat-count edits before encode. Round 8: bulk consumers (fold, for_each, collect, count, try_for_each, peekable) after k calls of next(). Round 10: encoder-node-volumes family (API-built maps, distinct volume per node, active sample volume after encode+decode at each node time; duration API vs closed form). Round 11: second encode after a length edit; zero-length sliders; a node's volume still in force right before the next node. Round 13: curved sliders with/without declared length; cached curves dropped before encoding every other time. distinct_nontrivial = distinct plan hashes containing a run preceded by pollution or an abandoned iterator.".into()
     }
     fn assumptions(&self) -> Vec<String> {
         vec![
